@@ -693,11 +693,230 @@ where
     if E::order() != order {
         ctx.violation(format!("{name}:order"), format!("{name} order"), "order() != p^D");
     }
+    ext_trait_defaults::<E, D>(ctx, name, w, &ts, &order);
     // from_basefield
     for &s in &alpha {
         let mut want = vec![0; D];
         want[0] = s % P;
         cmp("from_basefield", format!("{name} from_basefield {s}"), guarded(|| to_raw::<E, D>(E::from_basefield(F(s)))), want);
+    }
+}
+
+/// The provided (default) methods of the `Field` trait, instantiated at an extension field: they are
+/// written once in types.rs against associated constants (TWO_ADICITY vs CHARACTERISTIC_TWO_ADICITY,
+/// POWER_OF_TWO_GENERATOR, order()) whose values differ between the prime field and its extensions.
+fn ext_trait_defaults<E, const D: usize>(ctx: &Ctx, name: &str, w: u64, ts: &[Vec<u64>], order: &BigUint)
+where
+    E: FieldExtension<D, BaseField = F>,
+{
+    let canon = |v: &[u64]| -> Vec<u64> { v.iter().map(|x| x % P).collect() };
+    let base = |x: u64| -> Vec<u64> {
+        let mut v = vec![0; D];
+        v[0] = x % P;
+        v
+    };
+    let cmp = |site: &str, case: String, got: Result<Vec<u64>, String>, want: Vec<u64>| {
+        if !ctx.want(&case) {
+            return;
+        }
+        ctx.tick(1);
+        match got {
+            Ok(g) => {
+                if g != want {
+                    ctx.violation(format!("{name}:{site}"), case, format!("got {g:?}, expected {want:?}"));
+                } else {
+                    ctx.class(format!("{name}:{site}:ok"));
+                }
+            }
+            Err(p) => ctx.violation(format!("{name}:{site}:panic"), case, p),
+        }
+    };
+    let om1 = order - BigUint::from(1u8);
+    // inverse_2exp: 2^-e lies in the prime subfield, for every e (both sides of TWO_ADICITY and of
+    // CHARACTERISTIC_TWO_ADICITY, and several multiples beyond)
+    for e in 0..=140usize {
+        let want = base(invm(powm(2, e as u128)).unwrap());
+        cmp("inverse_2exp", format!("{name} inverse_2exp {e}"), guarded(|| to_raw::<E, D>(E::inverse_2exp(e))), want);
+    }
+    // primitive_root_of_unity(n) has order exactly 2^n for every n up to the extension's two-adicity
+    let adicity = E::TWO_ADICITY;
+    for n_log in 0..=adicity {
+        let case = format!("{name} primitive_root_of_unity {n_log}");
+        if !ctx.want(&case) {
+            continue;
+        }
+        ctx.tick(1);
+        match guarded(|| to_raw::<E, D>(E::primitive_root_of_unity(n_log))) {
+            Ok(g) => {
+                let mut x = g.clone();
+                let mut ord = None;
+                for i in 0..=n_log {
+                    if x == ext_one(D) {
+                        ord = Some(i);
+                        break;
+                    }
+                    x = ext_mul(&x, &x, w);
+                }
+                if ord != Some(n_log) {
+                    ctx.violation(format!("{name}:primitive_root_of_unity"), case, format!("{g:?} has order 2^{ord:?}"));
+                } else {
+                    ctx.class(format!("{name}:primitive_root_of_unity:ok"));
+                }
+            }
+            Err(p) => ctx.violation(format!("{name}:primitive_root_of_unity:panic"), case, p),
+        }
+    }
+    // subgroup enumerations against reference powers
+    for n_log in 0..=5usize {
+        let g = to_raw::<E, D>(E::primitive_root_of_unity(n_log));
+        let ge: E = from_raw::<E, D>(&g);
+        let mut want = Vec::new();
+        let mut x = ext_one(D);
+        for _ in 0..(1usize << n_log) {
+            want.push(x.clone());
+            x = ext_mul(&x, &g, w);
+        }
+        let flat = |v: Vec<E>| -> Vec<u64> { v.into_iter().flat_map(|e| to_raw::<E, D>(e)).collect() };
+        let wflat: Vec<u64> = want.iter().flatten().copied().collect();
+        cmp("two_adic_subgroup", format!("{name} two_adic_subgroup {n_log}"), guarded(|| flat(E::two_adic_subgroup(n_log))), wflat.clone());
+        cmp("cyclic_subgroup_known_order", format!("{name} cyclic_subgroup_known_order {n_log}"), guarded(|| flat(E::cyclic_subgroup_known_order(ge, 1 << n_log))), wflat.clone());
+        cmp("cyclic_subgroup_unknown_order", format!("{name} cyclic_subgroup_unknown_order {n_log}"), guarded(|| flat(E::cyclic_subgroup_unknown_order(ge))), wflat.clone());
+        if n_log > 0 {
+            cmp("generator_order", format!("{name} generator_order {n_log}"), guarded(|| vec![E::generator_order(ge) as u64]), vec![1u64 << n_log]);
+        }
+        for shift in [&ts[ts.len() / 2], &ts[ts.len() - 1]] {
+            let sc = canon(shift);
+            let wshift: Vec<u64> = want.iter().flat_map(|x| ext_mul(x, &sc, w)).collect();
+            cmp("cyclic_subgroup_coset_known_order", format!("{name} coset {n_log} {shift:?}"), guarded(|| flat(E::cyclic_subgroup_coset_known_order(ge, from_raw::<E, D>(shift), 1 << n_log))), wshift);
+        }
+    }
+    // conversions into the field
+    for &s in &[0u64, 1, 2, 255, 256, 65535, 65536, (1 << 32) - 1, 1 << 32, P - 1] {
+        cmp("from_canonical_u64", format!("{name} from_canonical_u64 {s}"), guarded(|| to_raw::<E, D>(E::from_canonical_u64(s))), base(s));
+        cmp("from_canonical_usize", format!("{name} from_canonical_usize {s}"), guarded(|| to_raw::<E, D>(E::from_canonical_usize(s as usize))), base(s));
+        if s <= u32::MAX as u64 {
+            cmp("from_canonical_u32", format!("{name} from_canonical_u32 {s}"), guarded(|| to_raw::<E, D>(E::from_canonical_u32(s as u32))), base(s));
+        }
+        if s <= u16::MAX as u64 {
+            cmp("from_canonical_u16", format!("{name} from_canonical_u16 {s}"), guarded(|| to_raw::<E, D>(E::from_canonical_u16(s as u16))), base(s));
+        }
+        if s <= u8::MAX as u64 {
+            cmp("from_canonical_u8", format!("{name} from_canonical_u8 {s}"), guarded(|| to_raw::<E, D>(E::from_canonical_u8(s as u8))), base(s));
+        }
+    }
+    cmp("from_bool", format!("{name} from_bool"), guarded(|| [to_raw::<E, D>(E::from_bool(false)), to_raw::<E, D>(E::from_bool(true))].concat()), [base(0), base(1)].concat());
+    for &s in &[0u64, 1, P - 1, P, P + 1, u64::MAX, 1 << 63, 0xffff_ffff_0000_0000] {
+        cmp("from_noncanonical_u64", format!("{name} from_noncanonical_u64 {s}"), guarded(|| to_raw::<E, D>(E::from_noncanonical_u64(s))), base(s % P));
+        for &hi in &[0u64, 1, 0xffff_ffff, u64::MAX, P, P - 1] {
+            let n = ((hi as u128) << 64) | s as u128;
+            cmp("from_noncanonical_u128", format!("{name} from_noncanonical_u128 {n}"), guarded(|| to_raw::<E, D>(E::from_noncanonical_u128(n))), base((n % P as u128) as u64));
+            if hi <= u32::MAX as u64 {
+                cmp("from_noncanonical_u96", format!("{name} from_noncanonical_u96 {n}"), guarded(|| to_raw::<E, D>(E::from_noncanonical_u96((s, hi as u32)))), base((n % P as u128) as u64));
+            }
+        }
+        let i = s as i64;
+        let want = if i >= 0 { (i as u64) % P } else { P - ((i.unsigned_abs()) % P) };
+        cmp("from_noncanonical_i64", format!("{name} from_noncanonical_i64 {i}"), guarded(|| to_raw::<E, D>(E::from_noncanonical_i64(i))), base(want % P));
+        let big = BigUint::from(s) * BigUint::from(u64::MAX) + BigUint::from(s);
+        let bw = (&big % BigUint::from(P)).to_u64_digits().first().copied().unwrap_or(0);
+        cmp("from_noncanonical_biguint", format!("{name} from_noncanonical_biguint {big}"), guarded(|| to_raw::<E, D>(E::from_noncanonical_biguint(big.clone()))), base(bw));
+    }
+    if E::characteristic() != BigUint::from(P) {
+        ctx.violation(format!("{name}:characteristic"), format!("{name} characteristic"), "characteristic() != p");
+    }
+    cmp("coset_shift", format!("{name} coset_shift"), guarded(|| to_raw::<E, D>(E::coset_shift())), to_raw::<E, D>(E::MULTIPLICATIVE_GROUP_GENERATOR));
+    cmp("constants", format!("{name} constants"), guarded(|| [to_raw::<E, D>(E::ZERO), to_raw::<E, D>(E::ONE), to_raw::<E, D>(E::TWO), to_raw::<E, D>(E::NEG_ONE)].concat()), [base(0), base(1), base(2), base(P - 1)].concat());
+    // element-wise defaults on a sub-grid of the coordinate tuples
+    let sub: Vec<&Vec<u64>> = ts.iter().step_by((ts.len() / 150).max(1)).collect();
+    ctx.count(&format!("{name}_trait_default_inputs"), sub.len() as u64);
+    let k_roots: Vec<u64> = [3u64, 5, 7, 11, 13, 17, 2, 4, 9, 1 << 32, 65537].into_iter().collect();
+    par_for(sub.len(), |i| {
+        let a = sub[i];
+        let ea: E = from_raw::<E, D>(a);
+        let ca = canon(a);
+        let sq = ext_mul(&ca, &ca, w);
+        cmp("cube", format!("{name} cube {a:?}"), guarded(|| to_raw::<E, D>(ea.cube())), ext_mul(&sq, &ca, w));
+        cmp("triple", format!("{name} triple {a:?}"), guarded(|| to_raw::<E, D>(ea.triple())), ext_add(&ext_add(&ca, &ca), &ca));
+        for k in [0usize, 1, 2, 5, 63, 64, 65] {
+            let e = BigUint::from(1u8) << k;
+            cmp("exp_power_of_2", format!("{name} exp_power_of_2 {a:?} {k}"), guarded(|| to_raw::<E, D>(ea.exp_power_of_2(k))), ext_pow(&ca, &e, w));
+        }
+        for e in [0u64, 1, 2, 3, 7, 1 << 32, (1 << 32) + 1, 1 << 63, P, u64::MAX - 1] {
+            cmp("exp_u64", format!("{name} exp_u64 {a:?} {e}"), guarded(|| to_raw::<E, D>(ea.exp_u64(e))), ext_pow(&ca, &BigUint::from(e), w));
+        }
+        for e in [BigUint::from(0u8), BigUint::from(1u8) << 64, (BigUint::from(1u8) << 128) + BigUint::from(3u8), om1.clone(), order.clone()] {
+            cmp("exp_biguint", format!("{name} exp_biguint {a:?} {e}"), guarded(|| to_raw::<E, D>(ea.exp_biguint(&e))), ext_pow(&ca, &e, w));
+        }
+        // powers / shifted_powers, incl. the iterator shortcuts
+        let mut pw = vec![ext_one(D)];
+        for _ in 0..9 {
+            let l = pw.last().unwrap().clone();
+            pw.push(ext_mul(&l, &ca, w));
+        }
+        let pflat: Vec<u64> = pw.iter().take(6).flatten().copied().collect();
+        cmp("powers", format!("{name} powers {a:?}"), guarded(|| ea.powers().take(6).flat_map(|e| to_raw::<E, D>(e)).collect()), pflat);
+        cmp("powers_nth", format!("{name} powers_nth {a:?}"), guarded(|| { let mut it = ea.powers(); let x = it.nth(4).unwrap(); let y = it.next().unwrap(); let z = it.nth(2).unwrap(); [to_raw::<E, D>(x), to_raw::<E, D>(y), to_raw::<E, D>(z)].concat() }), [pw[4].clone(), pw[5].clone(), pw[8].clone()].concat());
+        let sh = sub[(i * 7 + 3) % sub.len()];
+        let csh = canon(sh);
+        let sflat: Vec<u64> = pw.iter().take(4).flat_map(|x| ext_mul(x, &csh, w)).collect();
+        cmp("shifted_powers", format!("{name} shifted_powers {a:?} {sh:?}"), guarded(|| ea.shifted_powers(from_raw::<E, D>(sh)).take(4).flat_map(|e| to_raw::<E, D>(e)).collect()), sflat);
+        let y = sub[(i * 11 + 5) % sub.len()];
+        cmp("multiply_accumulate", format!("{name} multiply_accumulate {a:?} {sh:?} {y:?}"), guarded(|| to_raw::<E, D>(ea.multiply_accumulate(from_raw::<E, D>(sh), from_raw::<E, D>(y)))), ext_add(&ca, &ext_mul(&csh, &canon(y), w)));
+        let zero = ca.iter().all(|x| *x == 0);
+        if !zero {
+            let case = format!("{name} inverse {a:?}");
+            if ctx.want(&case) {
+                ctx.tick(1);
+                match guarded(|| to_raw::<E, D>(ea.inverse())) {
+                    Ok(inv) if ext_mul(&inv, &ca, w) == ext_one(D) => ctx.class(format!("{name}:inverse():ok")),
+                    Ok(inv) => ctx.violation(format!("{name}:inverse"), case, format!("a * inverse(a) != 1 (got {inv:?})")),
+                    Err(p) => ctx.violation(format!("{name}:inverse:panic"), case, p),
+                }
+            }
+        }
+        // k-th roots where x -> x^k permutes the field (gcd(k, |E|-1) = 1 by the harness's own gcd)
+        for &k in &k_roots {
+            let perm = k == 1 || (k != 0 && num::Integer::gcd(&om1, &BigUint::from(k)) == BigUint::from(1u8));
+            let case = format!("{name} kth_root_u64 {a:?} {k}");
+            if !ctx.want(&case) {
+                continue;
+            }
+            ctx.tick(1);
+            match guarded(|| E::is_monomial_permutation_u64(k)) {
+                Ok(b) if b == perm => {}
+                other => ctx.violation(format!("{name}:is_monomial_permutation_u64"), case.clone(), format!("got {other:?}, gcd says {perm}")),
+            }
+            if perm {
+                match guarded(|| to_raw::<E, D>(ea.kth_root_u64(k))) {
+                    Ok(r) if ext_pow(&r, &BigUint::from(k), w) == ca => ctx.class(format!("{name}:kth_root:ok")),
+                    Ok(r) => ctx.violation(format!("{name}:kth_root_u64"), case, format!("root^k != a (root {r:?})")),
+                    Err(p) => ctx.violation(format!("{name}:kth_root_u64:panic"), case, p),
+                }
+            }
+        }
+    });
+    // batch inversion for every length 0..=13 over non-zero sub-grid elements (four interleaved chains + tail)
+    let nonzero: Vec<&Vec<u64>> = sub.iter().copied().filter(|t| t.iter().any(|x| x % P != 0)).collect();
+    for len in 0..=13usize {
+        for rot in 0..3usize {
+            let v: Vec<E> = (0..len).map(|i| from_raw::<E, D>(nonzero[(i * (rot + 1) + rot * 17) % nonzero.len()])).collect();
+            let case = format!("{name} batch_inverse len={len} rot={rot}");
+            if !ctx.want(&case) {
+                continue;
+            }
+            ctx.tick(1);
+            match guarded(|| E::batch_multiplicative_inverse(&v)) {
+                Ok(out) => {
+                    let ok = out.len() == len && out.iter().zip(&v).all(|(o, x)| ext_mul(&to_raw::<E, D>(*o), &to_raw::<E, D>(*x), w) == ext_one(D));
+                    if !ok {
+                        ctx.violation(format!("{name}:batch_inverse"), case, "wrong inverse");
+                    } else {
+                        ctx.class(format!("{name}:batch_inverse:ok"));
+                    }
+                }
+                Err(p) => ctx.violation(format!("{name}:batch_inverse:panic"), case, p),
+            }
+        }
     }
 }
 
